@@ -21,6 +21,9 @@ fn receiver(rx_alloc: usize) -> HalfConnection {
     HalfConnection::new(cfg.half(0))
 }
 
+/// set by C03: the same sweep with the panic / work-budget oracle only
+pub static FOR_C03: std::sync::atomic::AtomicBool = std::sync::atomic::AtomicBool::new(false);
+
 #[derive(Clone, Debug)]
 struct Item { dg: Datagram, hostile: bool }
 
@@ -45,8 +48,13 @@ fn feed(items: &[Item], p_main: &[u8], p_nb: &[u8], acc: &mut Acc, what: &str) {
         out
     });
     set_fuel(u64::MAX);
+    let for_c03 = FOR_C03.load(std::sync::atomic::Ordering::Relaxed);
     match r {
-        Err(_) => { acc.panics += 1; }
+        // a panic while handling fragments: C03's business, and for C04 an execution on which nothing it promises can happen
+        Err(p) => { acc.panics += 1; let loc = p.rsplit(" @ ").next().unwrap_or("").to_string(); let fuel = p.contains(uflow_fuel_marker());
+            if for_c03 { acc.violation(case(), viol(if fuel { "C03.unbounded-work" } else { "C03.panic" }, format!("C03.{}:reassembly:{}", if fuel { "unbounded-work" } else { "panic" }, loc), format!("{}: the receiver panicked while handling these fragments: {}", what, p))); }
+            else { acc.violation(case(), viol("C04.aborted-by-panic", format!("C04.aborted-by-panic:{}", loc), format!("{}: the receiver panicked while handling these fragments, so the packet cannot be reassembled: {}", what, p))); } }
+        Ok(_) if for_c03 => {}
         Ok(out) => {
             let mut h = 0x04u64; for p in out.iter() { h = fnv(h, p.len() as u64); }
             acc.outcomes.insert(h ^ (items.len() as u64) << 48);
@@ -62,6 +70,8 @@ fn feed(items: &[Item], p_main: &[u8], p_nb: &[u8], acc: &mut Acc, what: &str) {
         }
     }
 }
+
+fn uflow_fuel_marker() -> &'static str { uflow::verif::FUEL_PANIC }
 
 fn permutations(n: usize, f: &mut dyn FnMut(&[usize])) {
     fn rec(k: usize, a: &mut Vec<usize>, f: &mut dyn FnMut(&[usize])) {
